@@ -449,20 +449,33 @@ class SNum:
     def sin(self):
         return ((self * 1j).exp() - (self * (-1j)).exp()) * (-0.5j)
 
+    def pruned(self, eps=1e-13):
+        """drop float-rounding-level residue terms (|coef| < eps) before a value is used in a
+        branch decision or as the argument of an atom; the real code carries the same 1e-16 noise"""
+        if all(abs(v) >= eps for v in self.t.values()):
+            return self
+        return SNum({k: v for k, v in self.t.items() if abs(v) >= eps})
+
     def sqrt(self):
         if self.is_const():
             return SNum.const(cmath.sqrt(self.const_value()))
-        return _ctx.cur().atom_sqrt(self)
+        p = self.pruned()
+        if p.is_const():
+            return SNum.const(cmath.sqrt(p.const_value()))
+        return _ctx.cur().atom_sqrt(p)
 
     def __abs__(self):
         if self.is_const():
             return SNum.const(abs(self.const_value()))
         # |c * exp(i A)| = |c|
-        if len(self.t) == 1:
-            ((mono, ang), c), = self.t.items()
+        p = self.pruned()
+        if p.is_const():
+            return SNum.const(abs(p.const_value()))
+        if len(p.t) == 1:
+            ((mono, ang), c), = p.t.items()
             if not mono:
                 return SNum.const(abs(c))
-        return _ctx.cur().atom_abs(self)
+        return _ctx.cur().atom_abs(p)
 
     def __floor__(self):
         if self.is_const():
@@ -610,7 +623,7 @@ def _lift(fn_name, np_fn):
     def f(x):
         if isinstance(x, SNum):
             return getattr(x, fn_name)()
-        if isinstance(x, np.ndarray) and x.dtype == object:
+        if isinstance(x, np.ndarray) and np.ndarray.dtype.__get__(x) == object:
             return np.vectorize(lambda e: getattr(SNum.coerce(e), fn_name)(), otypes=[object])(x)
         return np_fn(x)
 
